@@ -147,19 +147,7 @@ class Oracle:
             return False
 
     def expansion_tractable(self) -> bool:
-        if self.explicit() is None:
-            return False
-        try:
-            if ref.expansion_cost(self.tree) > EXPANSION_LIMIT:
-                return False
-            total = 0
-            for d in range(1, 65):
-                total += ref.modulo_cost(self.tree, d)
-                if total > VALIDATION_LIMIT:
-                    return False
-        except ref.TooBig:
-            return False
-        return True
+        return self.explicit() is not None and ref.expansion_tractable(self.tree, ref.EXPLICIT_LIMIT, EXPANSION_LIMIT, VALIDATION_LIMIT)
 
     def min(self) -> int:
         v = ref.vmin(self.tree)
